@@ -358,7 +358,15 @@ where
         D: Deserializer<'de>,
     {
         let mut buffer = Self::ZERO.to_le_bytes();
-        serdect::array::deserialize_hex_or_bin(buffer.as_mut(), deserializer)?;
+        let expected_len = buffer.as_ref().len();
+        let decoded = serdect::array::deserialize_hex_or_bin(buffer.as_mut(), deserializer)?;
+        if decoded.len() != expected_len {
+            // a hex string shorter than the type would otherwise be zero-extended
+            return Err(serdect::serde::de::Error::invalid_length(
+                decoded.len(),
+                &"an encoding of exactly the size of the integer",
+            ));
+        }
 
         Ok(Self::from_le_bytes(buffer))
     }
